@@ -179,18 +179,22 @@ func (s *server) run() {
 		s.live[i] = c
 		s.mu.Unlock()
 		if d.Stall {
-			// a small receive buffer: the client's Flush blocks after a few hundred KiB instead of several MiB
-			if tc, ok := c.(*net.TCPConn); ok {
-				tc.SetReadBuffer(8 * 1024)
-			}
 			s.mu.Lock()
 			obs.Stalled = true
 			s.mu.Unlock()
 			s.cut(c, obs, directive{Frames: d.Frames})
+			// a smaller receive buffer from here on: the client's Flush blocks after a few hundred KiB instead
+			// of several MiB (not smaller than the loopback segment size, or the window closes for good)
+			if tc, ok := c.(*net.TCPConn); ok {
+				tc.SetReadBuffer(128 * 1024)
+			}
 			// until the client has given this connection up: a send reported an error (direct mode), or the
 			// client connected again (queue mode: process() reports nothing, it closes and re-dials)
 			timedOut := false
-			base := atomic.LoadInt64(&s.log.connected)
+			// (the client has logged more connections than this collector has accepted: one is waiting in the backlog)
+			s.mu.Lock()
+			base := int64(len(s.conns))
+			s.mu.Unlock()
 			t0 := time.Now()
 		wait:
 			for time.Since(t0) < stallCap {
